@@ -431,3 +431,93 @@ func UIDs(refs []Ref) []string {
 }
 
 var _ = metav1.Now
+
+// ---- ObjectDeployments ---------------------------------------------------------------------------
+
+type Deployment struct {
+	Kind, NS, Name, UID string
+	Cluster             bool
+	Paused              bool
+	Template            corev1alpha1.ObjectSetTemplate
+	Selector            map[string]string
+	HistoryLimit        int32
+	TemplateHash        string
+	CollisionCount      *int32
+	Generation          int64
+	Raw                 Obj
+}
+
+func DeploymentFrom(o Obj) *Deployment {
+	if o == nil {
+		return nil
+	}
+	b, err := json.Marshal(o)
+	if err != nil {
+		return nil
+	}
+	var d corev1alpha1.ObjectDeployment
+	if json.Unmarshal(b, &d) != nil {
+		return nil
+	}
+	kind, _ := o["kind"].(string)
+	out := &Deployment{
+		Kind: kind, Cluster: strings.HasPrefix(kind, "Cluster"), NS: d.Namespace, Name: d.Name, UID: string(d.UID), Paused: d.Spec.Paused,
+		Template: d.Spec.Template, Selector: d.Spec.Selector.MatchLabels, HistoryLimit: 10, TemplateHash: d.Status.TemplateHash,
+		CollisionCount: d.Status.CollisionCount, Generation: d.Generation, Raw: o,
+	}
+	if d.Spec.RevisionHistoryLimit != nil {
+		out.HistoryLimit = *d.Spec.RevisionHistoryLimit
+	}
+	return out
+}
+
+// TemplateSpecOf returns the ObjectSetTemplateSpec part of a stored ObjectSet as JSON-comparable value.
+func TemplateSpecOf(set Obj) any {
+	b, err := json.Marshal(set)
+	if err != nil {
+		return nil
+	}
+	var s corev1alpha1.ObjectSet
+	if json.Unmarshal(b, &s) != nil {
+		return nil
+	}
+	return Canon(s.Spec.ObjectSetTemplateSpec)
+}
+
+// Canon renders a value as canonical JSON data (nil and empty collections dropped by omitempty are equal).
+func Canon(v any) any {
+	b, err := json.Marshal(v)
+	if err != nil {
+		return nil
+	}
+	var out any
+	_ = json.Unmarshal(b, &out)
+	return prune(out)
+}
+
+func prune(v any) any {
+	switch t := v.(type) {
+	case map[string]any:
+		for k, x := range t {
+			p := prune(x)
+			if p == nil {
+				delete(t, k)
+				continue
+			}
+			t[k] = p
+		}
+		if len(t) == 0 {
+			return nil
+		}
+		return t
+	case []any:
+		if len(t) == 0 {
+			return nil
+		}
+		for i := range t {
+			t[i] = prune(t[i])
+		}
+		return t
+	}
+	return v
+}
